@@ -40,7 +40,7 @@ let event_name = function
   | EInteg (t, f) -> "integ:" ^ sm_name t ^ ":" ^ flag_name f
   | EApost r -> "apost:" ^ string_of_int (permille_of_q r) | EExport -> "export" | EIE -> "ie" | EDE -> "de" | EMinTsf -> "mintsf"
 let err_name = function ErrNone -> "none" | ErrInitFailed -> "initfailed" | ErrNoPrediction -> "noprediction" | ErrNoTangent -> "notangent"
-  | ErrExc h -> "exc:" ^ hook_name h | ErrBadStressMeasure -> "badstressmeasure" | ErrBadTangent -> "badtangent"
+  | ErrExc h -> "exc:" ^ hook_name h | ErrBadStressMeasure -> "badstressmeasure" | ErrBadTangent -> "badtangent" | ErrNoAxial -> "noaxial"
 let sos_name = function SUntouched -> "U" | SInitial -> "S0" | SFinal -> "S1"
 let uw b = if b then "W" else "U"
 let measure_name = function Cauchy -> "cauchy" | PK2 -> "pk2" | PK1 -> "pk1" | SMInvalid -> "invalid"
@@ -81,7 +81,46 @@ let () =
                     sc_apost = outcome_of (ci "apost"); sc_apost_v = q_of_permille (snd (sv (assoc "apost" c)));
                     sc_ie = okthrow_of (ci "ie"); sc_de = okthrow_of (ci "de"); sc_sos1 = okthrow_of (ci "sos1");
                     sc_mintsf = q_of_permille 100 } in
+          let is_gen = String.length fn > 4 && String.sub fn 0 4 = "gen:" in
+          let gw = if is_gen then List.nth (String.split_on_char ':' fn) 1 else "" in
           let expected =
+            if is_gen && gw = "plain" then begin
+              (* a real mfront-generated behaviour called through its generated entry point: no hook trace *)
+              let r = integrate v tr FStd k0 p rdt0 s in
+              Printf.sprintf "ret=%d rdt=%d flux=%s isv=%s se=%s de=%s K=%s sos=%s err=%s frame=ok"
+                (int_of_z r.ret) (permille_of_q r.rdt) (uw r.st_written) (uw r.st_written) (uw r.se_written) (uw r.de_written)
+                (match r.kst with KUntouched -> "U"
+                 | KExported t -> "E:" ^ sm_name t ^ (if is_prediction (effective_K0 k0) then ":pred" else ":integ"))
+                (sos_name r.sos) (err_name r.err)
+            end else if is_gen then begin
+              (* generated behaviour declared with a strain measure: C = changed, the values are C55's business *)
+              let w = match gw with "gl" -> WGreenLagrange | "log" -> WHencky | _ -> WFiniteStrain in
+              let r = wrap v w tr k0 k1 k2 p rdt0 s in
+              let i = r.w_inner in
+              Printf.sprintf "ret=%d rdt=%d flux=%s isv=%s se=%s de=%s K=%s sos=%s err=%s frame=ok"
+                (int_of_z r.w_ret) (permille_of_q i.rdt)
+                (match r.w_flux with FluxUntouched -> "U" | FluxWritten (_, _) -> "C")
+                (uw i.st_written) (uw i.se_written) (uw i.de_written)
+                (match r.w_K with WKUntouched -> "U" | _ -> "C")
+                (sos_name i.sos) (err_name r.w_err)
+            end else
+            if fn = "glh" || fn = "logh" || fn = "fsh" then begin
+              (* the wrappers in the other modelling hypotheses (driver_h.cxx): model wrap_h, coarse images (U / C) *)
+              let w = match fn with "glh" -> WGreenLagrange | "logh" -> WHencky | _ -> WFiniteStrain in
+              let ps = (assoc "ps" a = "1") in
+              let r = wrap_h v w ps (trb land 16 = 0) tr k0 k1 k2 p rdt0 s in
+              let i = r.w_inner in
+              let seen =
+                if not r.w_called then "-"
+                else Printf.sprintf "K0:%d,flux1:%s,K:%s" (permille_of_q r.w_K0_seen) (if r.w_flux_private then "private" else "caller")
+                    (match w with WFiniteStrain -> "caller" | _ -> "private") in
+              Printf.sprintf "ret=%d trace=%s rdt=%d seen=%s flux=%s isv=%s se=%s de=%s K=%s sos=%s err=%s frame=ok"
+                (int_of_z r.w_ret) (if r.w_called then trace_string i else "-") (permille_of_q i.rdt) seen
+                (match r.w_flux with FluxUntouched -> "U" | FluxWritten (_, _) -> "C")
+                (uw i.st_written) (uw i.se_written) (uw i.de_written)
+                (match r.w_K with WKUntouched -> "U" | _ -> "C")
+                (sos_name i.sos) (err_name r.w_err)
+            end else
             if fn = "plain" || fn = "plainfs" then begin
               let f = if fn = "plain" then FStd else FFS DS_DEGL in
               let r = integrate v tr f k0 p rdt0 s in
